@@ -211,7 +211,7 @@ def complex_model(name, params):
 
         def infl(G, node, status, parameters):
             return list(G.neighbors(node))
-        return rate, choice, infl, ['S', 'I'], {('S', 'I'), ('I', 'S')}
+        return rate, choice, infl, ['S', 'I'], {('S', 'I'), ('I', 'S'), ('S', 'S'), ('I', 'I')}
     raise ValueError(name)
 
 
